@@ -481,13 +481,21 @@ def convert(ctx):
     r2c = ctx.fn(BOX, 'Box.position_relative_to_cartesian')
     c2r = ctx.fn(BOX, 'Box.position_cartesian_to_relative')
     ev.decide = lambda t, v, p: None
-    for shp in ((3,), (2, 3), (2, 2, 3)):
+    for shp in ((3,), (2, 3), (2, 2, 3), (2, 3, 3)):       # (.., 3, 3): a per-atom tensor property stored box-relative (every axis before the last is a leading axis)
         box = _box(cls, shape, V, o)
         r = symarray('r', shp, real=True)
-        x = ev.call_fn(r2c, [box, r.copy()], {}, Path({}))
+        try:
+            x = ev.call_fn(r2c, [box, r.copy()], {}, Path({}))
+        except WouldRaise as e:
+            ctx.ob('CONVERT', BOX + '::Box.position_relative_to_cartesian', 'relative -> Cartesian is r·V + origin for points of shape %s' % (shp,), False, str(e)[:200], node=r2c, key='r2c %s' % (shp,))
+            continue
         want = np.dot(r, V) + o
         ctx.ob('CONVERT', BOX + '::Box.position_relative_to_cartesian', 'relative -> Cartesian is r·V + origin for points of shape %s' % (shp,), equal(x, want, deep=False), node=r2c, key='r2c %s' % (shp,))
-        back = ev.call_fn(c2r, [box, x], {}, Path({}))
+        try:
+            back = ev.call_fn(c2r, [box, x], {}, Path({}))
+        except WouldRaise as e:
+            ctx.ob('CONVERT', BOX + '::Box.position_cartesian_to_relative', 'Cartesian -> relative inverts relative -> Cartesian for points of shape %s' % (shp,), False, str(e)[:200], node=c2r, key='c2r %s' % (shp,))
+            continue
         ok = hasattr(back, 'shape') and tuple(back.shape) == shp and all(is_zero(sp.cancel(sp.together(a - b))) for a, b in zip(back.flat, r.flat))
         ctx.ob('CONVERT', BOX + '::Box.position_cartesian_to_relative', 'Cartesian -> relative inverts relative -> Cartesian for points of shape %s' % (shp,), ok, node=c2r, key='c2r %s' % (shp,))
     for fn, pname in ((r2c, 'relpos'), (c2r, 'cartpos')):
